@@ -17,6 +17,7 @@ pub fn run(entry: &str, v: &Value) -> Option<Result<String, String>> {
         "fleet_wide_broadcast" => fleet_wide_broadcast(v),
         "peer_broadcast_payloads" => peer_broadcast_payloads(),
         "registry_message_bodies" => registry_message_bodies(),
+        "client_emission_parity" => client_emission_parity(),
         "ws_drain_siblings_survive" => ws_drain_siblings::run(),
         "ws_oversized_notify_keeps_connection" => ws_oversized_notify::run(),
         _ => return None,
@@ -46,21 +47,38 @@ impl repe::server::HandlerErased for OwnQuery {
             .build())
     }
 }
+struct DeepRec;
+impl repe::RepeStruct for DeepRec {
+    fn repe_handle(&mut self, segments: &[&str], _body: Option<Value>) -> Result<Option<Value>, repe::StructError> {
+        Ok(Some(json!({"segments": segments.len(), "last": segments.last().copied().unwrap_or("")})))
+    }
+}
 fn parity_router(hits: Arc<AtomicUsize>) -> repe::Router {
+    let v1 = Arc::new(repe::Registry::new());
+    v1.register_value("/whoami", json!("one")).unwrap();
+    let v10 = Arc::new(repe::Registry::new());
+    v10.register_value("/whoami", json!("ten")).unwrap();
     repe::Router::new()
+        .with_registry("/v1", v1)
+        .with_registry("/v10", v10)
+        .with_struct_shared("/deep", Arc::new(std::sync::Mutex::new(DeepRec)))
         .with_erased_handler("/own", Arc::new(OwnQuery(hits)))
         .with_json("/echo", |v: Value| Ok(v))
         .with_json_blocking("/blk", |v: Value| Ok(json!({"blk": v})))
         .with_json("/fail", |_v: Value| -> Result<Value, (repe::ErrorCode, String)> { Err((repe::ErrorCode::ApplicationErrorBase, "nope".into())) })
 }
-const PARITY_REQS: [(u64, &str, bool); 10] = [
+const DEEP: &str = "/deep/a/b/c/d/e/f/g/h/i/j/k/l/m/n/o/p/q/r/s/t";
+const PARITY_REQS: [(u64, &str, bool); 14] = [
     (1, "/own", false), (2, "/echo", false), (3, "/missing", false), (4, "/own", false), (5, "/fail", false), (6, "/echo", true), (7, "/own", false),
-    (8, "/rawq", false), (9, "/blk", false), (10, "/deep/missing/path", false),
+    (8, "/rawq", false), (9, "/blk", false), (10, "/nowhere/missing/path", false),
+    (11, "/v10/whoami", false), (12, "/v1/whoami", false), (13, DEEP, false), (14, "/deep/x", false),
 ];
 fn parity_request(id: u64, path: &str, notify: bool) -> repe::Message {
     // "/rawq": a request whose query is not a JSON pointer (rejected with InvalidQuery, query echoed)
     let qf = if path == "/rawq" { repe::QueryFormat::RawBinary } else { repe::QueryFormat::JsonPointer };
-    repe::Message::builder().id(id).notify(notify).query_str(path).query_format(qf).body_json(&json!({ "n": id })).unwrap().build()
+    let b = repe::Message::builder().id(id).notify(notify).query_str(path).query_format(qf);
+    // the registry mounts are read (empty body), everything else carries a JSON body
+    if path.starts_with("/v1") { b.build() } else { b.body_json(&json!({ "n": id })).unwrap().build() }
 }
 async fn parity_ws(router: repe::Router) -> Result<Vec<repe::Message>, String> {
     use futures_util::{SinkExt, StreamExt};
@@ -82,6 +100,12 @@ async fn parity_ws(router: repe::Router) -> Result<Vec<repe::Message>, String> {
     let (mut ws, _) = repe::tokio_tungstenite::connect_async(format!("ws://{addr}/repe")).await.map_err(|e| e.to_string())?;
     let mut out = Vec::new();
     for (id, path, notify) in PARITY_REQS {
+        // heartbeat control frames between requests are not requests and must not end the connection
+        match id % 3 {
+            0 => ws.send(WsMessage::Pong(vec![1, 2, 3].into())).await.map_err(|e| e.to_string())?,
+            1 => ws.send(WsMessage::Ping(vec![9].into())).await.map_err(|e| e.to_string())?,
+            _ => {}
+        }
         ws.send(WsMessage::Binary(parity_request(id, path, notify).to_vec().into())).await.map_err(|e| e.to_string())?;
         if notify {
             continue;
@@ -151,16 +175,43 @@ async fn server_query_parity() -> Result<String, String> {
         repe::AsyncServer::new(parity_router(hits[2].clone())).write_timeout(Some(Duration::from_secs(10))).read_timeout(Some(Duration::from_secs(10))),
     )
     .await?;
+    {
+        let server = repe::AsyncServer::new(repe::Router::new().with_json("/echo", |v: Value| Ok(v))).write_timeout(Some(Duration::from_millis(300)));
+        let listener = tokio::net::TcpListener::bind(("127.0.0.1", 0)).await.unwrap();
+        let addr = listener.local_addr().unwrap();
+        tokio::spawn(async move {
+            let _ = server.serve(listener).await;
+        });
+        let mut stream = tokio::net::TcpStream::connect(addr).await.unwrap();
+        for (id, pause) in [(1u64, 0u64), (2, 900), (3, 0)] {
+            tokio::time::sleep(Duration::from_millis(pause)).await;
+            let sent = repe::async_io::write_message_async(&mut stream, &parity_request(id, "/echo", false)).await;
+            let resp = match sent {
+                Ok(()) => tokio::time::timeout(Duration::from_secs(30), repe::async_io::read_message_async(&mut stream)).await.map_err(|_| "no response within 30 s".to_string()).and_then(|r| r.map_err(|e| e.to_string())),
+                Err(e) => Err(e.to_string()),
+            };
+            match resp {
+                Ok(m) if m.header.id == id && m.header.ec == 0 => {}
+                other => return Err(format!("async TCP server with only a write timeout (300 ms): request {id}, sent after an idle pause of {pause} ms, got {:?}; a write timeout bounds writes, it is not an idle timeout", other.map(|m| (m.header.id, m.header.ec)))),
+            }
+        }
+    }
     let r = parity_router(hits[3].clone());
     let blocking = tokio::task::spawn_blocking(move || parity_blocking(r)).await.unwrap()?;
     let ws = parity_ws(parity_router(hits[4].clone())).await?;
-    let expect_q: [&[u8]; 9] = [b"/chosen/by-handler", b"/echo", b"/missing", b"/chosen/by-handler", b"/fail", b"/chosen/by-handler", b"/rawq", b"/blk", b"/deep/missing/path"];
-    let expect_id = [1u64, 2, 3, 4, 5, 7, 8, 9, 10];
+    let expect_q: [&[u8]; 13] = [b"/chosen/by-handler", b"/echo", b"/missing", b"/chosen/by-handler", b"/fail", b"/chosen/by-handler", b"/rawq", b"/blk", b"/nowhere/missing/path", b"/v10/whoami", b"/v1/whoami", DEEP.as_bytes(), b"/deep/x"];
+    let expect_id = [1u64, 2, 3, 4, 5, 7, 8, 9, 10, 11, 12, 13, 14];
     for (name, got) in [("async", &plain), ("async+write_timeout", &with_w), ("async+read+write_timeout", &with_rw), ("blocking", &blocking), ("WebSocket", &ws)] {
-        if got.len() != 9 {
-            return Err(format!("{name}: {} responses to 9 requests and one notify", got.len()));
+        if got.len() != 13 {
+            return Err(format!("{name}: {} responses to 13 requests and one notify", got.len()));
         }
-        for i in 0..9 {
+        if got[9].header.ec != 0 || got[9].json_body::<Value>().ok() != Some(json!("ten")) || got[10].json_body::<Value>().ok() != Some(json!("one")) {
+            return Err(format!("{name}: mounts /v1 and /v10 answered /v10/whoami with ec {} body {:?} and /v1/whoami with {:?}", got[9].header.ec, String::from_utf8_lossy(&got[9].body), String::from_utf8_lossy(&got[10].body)));
+        }
+        if got[11].header.ec != 0 || got[11].json_body::<Value>().ok() != Some(json!({"segments": 20, "last": "t"})) {
+            return Err(format!("{name}: a 20-segment path below a struct mount was answered with ec {} body {:?}", got[11].header.ec, String::from_utf8_lossy(&got[11].body)));
+        }
+        for i in 0..13 {
             if got[i].header.id != expect_id[i] {
                 return Err(format!("{name}: response {i} carries id {} (expected {})", got[i].header.id, expect_id[i]));
             }
@@ -180,10 +231,28 @@ async fn server_query_parity() -> Result<String, String> {
     if ws[6].header.ec != repe::ErrorCode::InvalidQuery as u32 {
         return Err(format!("a query that is not a JSON pointer was answered with ec {}", ws[6].header.ec));
     }
-    for i in 0..9 {
+    for i in 0..13 {
         for (name, got) in [("async", &plain), ("async+write_timeout", &with_w), ("async+read+write_timeout", &with_rw), ("WebSocket", &ws)] {
             if fields(&got[i]) != fields(&blocking[i]) {
                 return Err(format!("response {i} differs between {name} and blocking TCP: {:?} vs {:?}", fields(&got[i]), fields(&blocking[i])));
+            }
+        }
+    }
+    // the copying dispatch path (HandlerErased::handle on an owned request: middleware, direct use) answers with the same header fields and body
+    {
+        let r = parity_router(Arc::new(AtomicUsize::new(0)));
+        let idx = |id: u64| expect_id.iter().position(|x| *x == id).unwrap();
+        for (id, path, notify) in PARITY_REQS {
+            if notify || path == "/rawq" {
+                continue;
+            }
+            let Some(h) = r.get(path) else { continue };
+            let owned = h.handle(&parity_request(id, path, false)).map_err(|e| format!("owned dispatch of {path}: {e}"))?;
+            let wire = &blocking[idx(id)];
+            let a = (owned.header.id, owned.header.ec, owned.header.query_format, owned.header.body_format, owned.body.clone());
+            let b = (wire.header.id, wire.header.ec, wire.header.query_format, wire.header.body_format, wire.body.clone());
+            if a != b {
+                return Err(format!("request {id} ({path}): the owned dispatch path answers (id, ec, query_format, body_format, body) = {a:?}, the servers answer {b:?}"));
             }
         }
     }
@@ -192,7 +261,7 @@ async fn server_query_parity() -> Result<String, String> {
             return Err(format!("the /own handler ran {} times for 3 requests", h.load(Ordering::SeqCst)));
         }
     }
-    Ok("9 responses identical on 5 server configurations (blocking TCP, async TCP x3, WebSocket inline and off-reader)".into())
+    Ok("13 responses identical on 5 server configurations (blocking TCP, async TCP x3, WebSocket inline and off-reader)".into())
 }
 
 // ---------------------------------------------------------------------------------------------
@@ -1029,4 +1098,160 @@ mod ws_drain_siblings {
         rt.shutdown_background();
         Ok("A ended alone; B and C stayed registered and served until shutdown; three disconnects in all".into())
     }
+}
+
+// ---------------------------------------------------------------------------------------------
+// C01, client side: the same logical request leaves the blocking, the async and the WebSocket
+// client as the same frame (all fields but the id), and that frame is what the builder produces
+// for it. Bounded: 12 operations (notify / call with explicit format codes, with and without a
+// body, JSON helpers) on each client against capturing peers.
+fn client_emission_parity() -> Result<String, String> {
+    use futures_util::{SinkExt, StreamExt};
+    use repe::tokio_tungstenite::tungstenite::Message as WsMessage;
+    use std::io::Write as _;
+    type Frame = (u8, u16, u16, u32, u32, Vec<u8>, Vec<u8>);
+    fn shape(m: &repe::Message) -> Frame {
+        (m.header.notify, m.header.query_format, m.header.body_format, m.header.ec, m.header.reserved, m.query.clone(), m.body.clone())
+    }
+    fn answer(id: u64) -> repe::Message {
+        repe::Message::builder().id(id).body_json(&json!({"ok": true})).unwrap().build()
+    }
+    // capturing TCP peer
+    let listener = std::net::TcpListener::bind("127.0.0.1:0").map_err(|e| e.to_string())?;
+    let addr = listener.local_addr().unwrap();
+    let (tx, rx) = std::sync::mpsc::channel::<(usize, repe::Message)>();
+    std::thread::spawn(move || {
+        for (n, conn) in listener.incoming().enumerate() {
+            let Ok(stream) = conn else { break };
+            let tx = tx.clone();
+            std::thread::spawn(move || {
+                let mut reader = std::io::BufReader::new(stream.try_clone().unwrap());
+                let mut writer = std::io::BufWriter::new(stream);
+                while let Ok(req) = repe::read_message(&mut reader) {
+                    let (id, notify) = (req.header.id, req.header.notify);
+                    let _ = tx.send((n, req));
+                    if notify == 0 && (repe::write_message(&mut writer, &answer(id)).is_err() || writer.flush().is_err()) {
+                        break;
+                    }
+                }
+            });
+        }
+    });
+    let rt = tokio::runtime::Builder::new_multi_thread().worker_threads(2).enable_all().build().unwrap();
+    // capturing WebSocket peer
+    let (wtx, wrx) = std::sync::mpsc::channel::<repe::Message>();
+    let waddr = rt.block_on(async {
+        let l = tokio::net::TcpListener::bind("127.0.0.1:0").await.unwrap();
+        let a = l.local_addr().unwrap();
+        tokio::spawn(async move {
+            let Ok((stream, _)) = l.accept().await else { return };
+            let Ok(mut ws) = repe::tokio_tungstenite::accept_async(stream).await else { return };
+            while let Some(Ok(frame)) = ws.next().await {
+                if let WsMessage::Binary(b) = frame {
+                    let Ok(m) = repe::Message::from_slice_exact(&b) else { break };
+                    let (id, notify) = (m.header.id, m.header.notify);
+                    let _ = wtx.send(m);
+                    if notify == 0 && ws.send(WsMessage::Binary(answer(id).to_vec().into())).await.is_err() {
+                        break;
+                    }
+                }
+            }
+        });
+        a
+    });
+    let client = repe::Client::connect(addr).map_err(|e| e.to_string())?;
+    let aclient = rt.block_on(repe::AsyncClient::connect(addr)).map_err(|e| e.to_string())?;
+    let wclient = rt.block_on(repe::WebSocketClient::connect(&format!("ws://{waddr}/repe"))).map_err(|e| e.to_string())?;
+    let raw: [(&str, u16, Option<&[u8]>, u16); 8] = [
+        ("/n", 1, Some(b"abc"), 0),
+        ("/n2", 1, Some(b"{\"a\":1}"), 2),
+        ("/n3", 0, Some(b"xyz"), 3),
+        ("/n4", 7, Some(&[1, 2, 3]), 9),
+        ("/n5", 1, None, 2),
+        ("/n6", 2, Some(b"q"), 1),
+        ("", 1, Some(b"root"), 0),
+        ("/n8", 1, Some(b""), 3),
+    ];
+    let e = |x: repe::RepeError| x.to_string();
+    // the reference: what the builder produces for the same logical message
+    let mut want: Vec<Frame> = Vec::new();
+    for (path, qf, body, bf) in raw {
+        for notify in [true, false] {
+            let mut b = repe::Message::builder().notify(notify).query_str(path).query_format_code(qf).body_format_code(bf);
+            if let Some(x) = body {
+                b = b.body_bytes(x.to_vec());
+            }
+            want.push(shape(&b.build()));
+        }
+    }
+    let val = json!({"k": [1, 2, {"z": null}]});
+    want.push(shape(&repe::Message::builder().query_str("/j").query_format(repe::QueryFormat::JsonPointer).body_json(&val).unwrap().build()));
+    want.push(shape(&repe::Message::builder().notify(true).query_str("/nj").query_format(repe::QueryFormat::JsonPointer).body_json(&val).unwrap().build()));
+    let mut seen: Vec<(&str, Vec<Frame>)> = Vec::new();
+    for which in ["blocking", "async", "websocket"] {
+        for (path, qf, body, bf) in raw {
+            match which {
+                "blocking" => {
+                    client.notify_with_formats(path, qf, body, bf).map_err(e)?;
+                    client.call_with_formats(path, qf, body, bf).map_err(e)?;
+                }
+                "async" => {
+                    rt.block_on(aclient.notify_with_formats(path, qf, body, bf)).map_err(e)?;
+                    rt.block_on(aclient.call_with_formats(path, qf, body, bf)).map_err(e)?;
+                }
+                _ => {
+                    rt.block_on(wclient.notify_with_formats(path, qf, body, bf)).map_err(e)?;
+                    rt.block_on(wclient.call_with_formats(path, qf, body, bf)).map_err(e)?;
+                }
+            }
+        }
+        match which {
+            "blocking" => {
+                client.call_json("/j", &val).map_err(e)?;
+                client.notify_json("/nj", &val).map_err(e)?;
+                client.call_json("/fence", &json!(0)).map_err(e)?;
+            }
+            "async" => {
+                rt.block_on(aclient.call_json("/j", &val)).map_err(e)?;
+                rt.block_on(aclient.notify_json("/nj", &val)).map_err(e)?;
+                rt.block_on(aclient.call_json("/fence", &json!(0))).map_err(e)?;
+            }
+            _ => {
+                rt.block_on(wclient.call_json("/j", &val)).map_err(e)?;
+                rt.block_on(wclient.notify_json("/nj", &val)).map_err(e)?;
+                rt.block_on(wclient.call_json("/fence", &json!(0))).map_err(e)?;
+            }
+        }
+        // everything up to the fence call has been read by the peer
+        let mut frames = Vec::new();
+        let mut ids = std::collections::HashSet::new();
+        loop {
+            let m = if which == "websocket" { wrx.recv_timeout(Duration::from_secs(30)).map_err(|_| "the WebSocket peer saw no frame".to_string())? } else { rx.recv_timeout(Duration::from_secs(30)).map_err(|_| "the TCP peer saw no frame".to_string())?.1 };
+            if !ids.insert(m.header.id) {
+                return Err(format!("{which} client: request id {} used twice on one connection", m.header.id));
+            }
+            if m.query == b"/fence" {
+                break;
+            }
+            if m.header.length as usize != 48 + m.query.len() + m.body.len() || m.header.spec != 0x1507 || m.header.version != 1 {
+                return Err(format!("{which} client: inconsistent header {:?}", m.header));
+            }
+            frames.push(shape(&m));
+        }
+        seen.push((which, frames));
+    }
+    rt.shutdown_background();
+    for (which, frames) in &seen {
+        if frames.len() != want.len() {
+            return Err(format!("{which} client: the peer saw {} frames for {} operations", frames.len(), want.len()));
+        }
+        for (i, (got, w)) in frames.iter().zip(&want).enumerate() {
+            if got != w {
+                return Err(format!(
+                    "{which} client, operation {i}: the frame on the wire (notify, query_format, body_format, ec, reserved, query, body) = {got:?} differs from the builder's frame for the same logical message {w:?}"
+                ));
+            }
+        }
+    }
+    Ok(format!("{} operations x 3 clients emitted the builder's frame", want.len()))
 }
